@@ -123,12 +123,15 @@ def vclass(prop, r):
     o = r.get("outcome")
     if o == "ok":
         return None
+    # a violation that occurred in a run with injected spurious condition-variable wake-ups (F2) is
+    # reported in a class of its own
+    sfx = ".under_spurious_wakeup" if r.get("faults", {}).get("spurious", 0) > 0 else ""
     if o == "violation":
-        return r.get("class") or (prop + ".violation")
+        return (r.get("class") or (prop + ".violation")) + sfx
     if o in ("deadlock", "budget"):
-        return "%s.liveness.%s" % (prop, r.get("sub", "main"))
+        return "%s.liveness.%s%s" % (prop, r.get("sub", "main"), sfx)
     if o == "crash":
-        return "%s.crash" % prop
+        return "%s.crash%s" % (prop, sfx)
     if o == "wall":
         return "%s.wall" % prop
     return "infra"
